@@ -164,11 +164,12 @@ Definition p11_top (rc : reg_case_env) (sg : ost) (b : blockinfo) (op : topop) (
                     | None => false end));
         (13, implb (negb ok)                                                           (* every stored id is instantiable *)
                    (negb (has_id id used && negb (match label with [] => true | _ => false end)
-                          && (match funds with [] => true | _ => false end) && clean_prog p
+                          && (match funds with [] => true | _ => false end) && clean_prog p && salt_ok salt
                           && match derived with Some a => is_none (lookup a (reg prev)) | None => false end)));
         (14, match salt, derived with                                                  (* repetition rejected, nothing changed *)
              | Some _, Some a => implb (negb (is_none (lookup a (reg prev)))) (negb ok && raw)
-             | _, _ => true end)]
+             | _, _ => true end);
+        (18, implb (negb (salt_ok salt)) (negb ok && raw))]                            (* salt of 1..64 bytes, or refused *)
    | None => []
    end) ++
   (match op with
@@ -551,15 +552,15 @@ Qed.
 
 (* a clean instantiation of a stored code at a fresh address succeeds *)
 Lemma clean_inst_succeeds e sender id p label admin salt s a :
-  has_id id (codes e) = true -> label <> [] -> clean_prog p = true ->
+  has_id id (codes e) = true -> label <> [] -> clean_prog p = true -> salt_ok salt = true ->
   new_address e s id sender salt = Some a -> lookup a (reg s) = None ->
   is_ok (outc (run_msg e sender (MInst id p [] label admin salt) s)) = true.
 Proof.
-  intros Hid Hlab Hcl Hna Hfresh. unfold has_id in Hid.
+  intros Hid Hlab Hcl Hsok Hna Hfresh. unfold has_id in Hid.
   destruct (find_code id (codes e)) as [co|] eqn:Ef; [|discriminate].
   destruct (clean_prog_inv p Hcl) as [node [acts [attrs [events [data [-> Hv]]]]]].
   cbn [run_msg]. destruct label as [|l0 lr]; [congruence|].
-  unfold register_contract. rewrite Ef, Hna, Hfresh. cbn [move_funds].
+  unfold register_contract. rewrite Ef, Hsok. cbn [negb]. rewrite Hna, Hfresh. cbn [move_funds].
   match goal with |- context [run_prog e EInst a (Some sender) [] None id true _ ?x] => set (s1 := x) end.
   assert (Hl : lookup a (reg s1) = Some {| cd_code := id; cd_creator := sender; cd_admin := admin; cd_label := l0 :: lr;
                                            cd_created := b_height (blk e) |}).
@@ -629,7 +630,7 @@ Proof.
     destruct (run_msg (senv rc t b) sender (MInst id p funds label admin salt) s) as [tr [[r s3]| |]] eqn:Er;
       cbn [top_trace top_outcome top_state fst snd is_okb].
     + destruct (inst_ok_facts _ _ _ _ _ _ _ _ _ _ _ _ Er) as [Hlab [a [s1 [tag [rest [Hreg [-> Hclean]]]]]]].
-      apply register_records in Hreg. destruct Hreg as [Hn [Hl [_ [_ [Hna [Hin _]]]]]].
+      apply register_records in Hreg. destruct Hreg as [Hn [Hl [_ [_ [Hna [Hin [_ [_ Hsok]]]]]]]].
       assert (Hcallee : root_callee p ((RCall (node_of p) EInst a (Some sender) funds (blk (senv rc t b)) tag None :: rest) ++ []) = Some a).
       { unfold root_callee. cbn [app]. rewrite find_call_head. reflexivity. }
       rewrite Hcallee, Hna.
@@ -641,6 +642,7 @@ Proof.
       { apply implb_intro. cbn [andb]. intros Hcl. rewrite (Hclean Hcl), Hl. cbn [option_eqb]. apply cdata_eqb_refl. }
       apply all_ok_cons. { reflexivity. }
       apply all_ok_cons. { destruct salt; [|reflexivity]. rewrite Hn. reflexivity. }
+      apply all_ok_cons. { rewrite Hsok. reflexivity. }
       apply all_ok_nil.
     + rewrite chain_eqb_refl.
       apply all_ok_cons. { apply implb_true_r. }
@@ -649,12 +651,14 @@ Proof.
       { cbn [implb negb orb]. destruct (has_id id t) eqn:Hid; [|reflexivity]. cbn [andb].
         destruct label as [|l0 lr]; [reflexivity|]. cbn [negb andb]. destruct funds; [|reflexivity]. cbn [andb].
         destruct (clean_prog p) eqn:Hcl; [|reflexivity]. cbn [andb].
+        destruct (salt_ok salt) eqn:Hsok; [|reflexivity]. cbn [andb].
         destruct (new_address (senv rc t b) s id sender salt) as [a|] eqn:Hna; [|reflexivity].
         destruct (lookup a (reg s)) eqn:Hl; [reflexivity|]. exfalso.
         assert (Hne : l0 :: lr <> []) by discriminate.
-        pose proof (clean_inst_succeeds (senv rc t b) sender id p (l0 :: lr) admin salt s a Hid Hne Hcl Hna Hl) as Hok.
+        pose proof (clean_inst_succeeds (senv rc t b) sender id p (l0 :: lr) admin salt s a Hid Hne Hcl Hsok Hna Hl) as Hok.
         rewrite Er in Hok. discriminate Hok. }
       apply all_ok_cons. { destruct salt; [|reflexivity]. destruct (new_address (senv rc t b) s id sender (Some b0)); [|reflexivity]. apply implb_true_r. }
+      apply all_ok_cons. { apply implb_true_r. }
       apply all_ok_nil.
     + rewrite chain_eqb_refl.
       apply all_ok_cons. { apply implb_true_r. }
@@ -663,12 +667,14 @@ Proof.
       { cbn [implb negb orb]. destruct (has_id id t) eqn:Hid; [|reflexivity]. cbn [andb].
         destruct label as [|l0 lr]; [reflexivity|]. cbn [negb andb]. destruct funds; [|reflexivity]. cbn [andb].
         destruct (clean_prog p) eqn:Hcl; [|reflexivity]. cbn [andb].
+        destruct (salt_ok salt) eqn:Hsok; [|reflexivity]. cbn [andb].
         destruct (new_address (senv rc t b) s id sender salt) as [a|] eqn:Hna; [|reflexivity].
         destruct (lookup a (reg s)) eqn:Hl; [reflexivity|]. exfalso.
         assert (Hne : l0 :: lr <> []) by discriminate.
-        pose proof (clean_inst_succeeds (senv rc t b) sender id p (l0 :: lr) admin salt s a Hid Hne Hcl Hna Hl) as Hok.
+        pose proof (clean_inst_succeeds (senv rc t b) sender id p (l0 :: lr) admin salt s a Hid Hne Hcl Hsok Hna Hl) as Hok.
         rewrite Er in Hok. discriminate Hok. }
       apply all_ok_cons. { destruct salt; [|reflexivity]. destruct (new_address (senv rc t b) s id sender (Some b0)); [|reflexivity]. apply implb_true_r. }
+      apply all_ok_cons. { apply implb_true_r. }
       apply all_ok_nil.
   - (* migration to a stored id *)
     destruct op as [sender ms|sender m|c p|to amt|sender m|sender m]; try apply all_ok_nil.
